@@ -12,7 +12,7 @@ from ..universe import make_event, PK
 
 ID = "C01"
 LEVEL = "model_checking"
-ASSUMPTIONS = ["see C09; PostgreSQL branch of evaluate_filter is covered at the SQL-text level only (no server in the sandbox)"]
+ASSUMPTIONS = ["real nostr_relay code imported from /repo's working tree, driven through web.start_client / the storage API; SQLite runs for real behind a same-thread connection shim (bound to real aiosqlite by C06's conformance cases); LMDB is an in-memory double (bound to the real liblmdb by C10's conformance cases), msgpack is pip's pure-python codec; asyncio runs on a controlled virtual-time loop; PostgreSQL branch of evaluate_filter is covered at the SQL-text level only (no server in the sandbox)"]
 CHUNK = 1
 
 STR_ALPHA = [
